@@ -262,8 +262,11 @@ func bn254Subjects(r *Rng) []*subject {
 		return []any{ok, e == nil}
 	}})
 	// hash to curve and the stream decoder over shared bytes
-	subs = append(subs, &subject{name: "bn254.HashToG1", shared: []any{msg}, run: func(int) any {
-		p, e := bn254.HashToG1(msg, []byte("dst"))
+	// the domain separation tag is the head of a longer shared buffer (spare capacity holding a second tag)
+	dstBuf := []byte("dst-Atag-B")
+	dst := dstBuf[:5]
+	subs = append(subs, &subject{name: "bn254.HashToG1", shared: []any{msg, dstBuf}, run: func(int) any {
+		p, e := bn254.HashToG1(msg, dst)
 		if e != nil {
 			return "error"
 		}
@@ -326,6 +329,58 @@ func bn254Subjects(r *Rng) []*subject {
 		h, _ := bn254fr.Hash(msg, []byte("d"), 2)
 		return []any{&a, &b, &c, &d, x.Text(16), h}
 	}})
+	// the parameter record handed out by GetEdwardsCurve is the caller's: scribbling over it (big.Int limbs in place,
+	// field elements) must not change what the package computes afterwards
+	for _, en := range []string{"bn254", "bls12-381-bandersnatch", "bw6-761"} {
+		e := edwards[en]
+		if e == nil {
+			continue
+		}
+		ef := e.F()
+		subs = append(subs, &subject{name: "edwards." + en + ".paramsCopy", shared: []any{}, run: func(int) any {
+			cp := reflect.New(e.GetCurve.Type().Out(0))
+			cp.Elem().Set(e.GetCurve.Call(nil)[0])
+			base := reflect.New(e.AffT)
+			base.Elem().Set(cp.Elem().FieldByName("Base"))
+			ord := cp.Elem().FieldByName("Order").Addr().Interface().(*big.Int)
+			var outs []any
+			for _, k := range []*big.Int{new(big.Int).Sub(ord, big.NewInt(1)), new(big.Int).Add(ord, big.NewInt(5)), new(big.Int).Neg(new(big.Int).Add(ord, big.NewInt(5))), big.NewInt(3)} {
+				for _, T := range []reflect.Type{e.AffT, e.ProjT, e.ExtT} {
+					in := reflect.New(T)
+					if T == e.AffT {
+						in.Elem().Set(base.Elem())
+					} else {
+						method(in, "FromAffine").Call([]reflect.Value{base})
+					}
+					o := reflect.New(T)
+					method(o, "ScalarMultiplication").Call([]reflect.Value{in, reflect.ValueOf(new(big.Int).Set(k))})
+					a := reflect.New(e.AffT)
+					if T == e.AffT {
+						a = o
+					} else if T == e.ProjT {
+						method(a, "FromProj").Call([]reflect.Value{o})
+					} else {
+						method(a, "FromExtended").Call([]reflect.Value{o})
+					}
+					outs = append(outs, a.Interface())
+				}
+			}
+			// now overwrite the caller's copy in place
+			ord.Sub(ord, big.NewInt(1))
+			ord.Rsh(ord, 1)
+			cof := cp.Elem().FieldByName("Cofactor")
+			if cof.IsValid() && cof.CanAddr() {
+				if z, ok := cof.Addr().Interface().(interface{ SetZero() }); ok {
+					z.SetZero()
+				}
+			}
+			for _, fn := range []string{"A", "D"} {
+				ef.SetRaw(cp.Elem().FieldByName(fn).Addr(), big.NewInt(7))
+			}
+			ef.SetRaw(cp.Elem().FieldByName("Base").FieldByName("X").Addr(), big.NewInt(9))
+			return outs
+		}})
+	}
 	// text conversions of full-size elements (small values take a strconv shortcut that never touches the pool), several fields
 	for _, fname := range []string{"bn254/fr", "bls12-381/fp", "bw6-761/fp", "secp256k1/fp", "stark-curve/fr"} {
 		f := fields[fname]
